@@ -44,6 +44,16 @@ class LinkStats:
     bytes_transmitted: int = 0
 
 
+def _release_pairs(counts: dict, pairs: frozenset) -> None:
+    """Drop one reference on each pair; a pair is unblocked at zero references."""
+    for pair in pairs:
+        remaining = counts.get(pair, 0) - 1
+        if remaining > 0:
+            counts[pair] = remaining
+        else:
+            counts.pop(pair, None)
+
+
 @dataclass
 class Partition:
     """Handle for a network partition, enabling selective healing.
@@ -59,18 +69,27 @@ class Partition:
     pairs: frozenset[frozenset[str]]
     directed_pairs: frozenset[tuple[str, str]]
     _network: Network
+    _healed: bool = False
 
     @property
     def is_active(self) -> bool:
         """True if any of this partition's pairs are still active."""
-        if self.pairs & self._network._partitioned_pairs:
+        if self.pairs & self._network._partitioned_pairs.keys():
             return True
-        return bool(self.directed_pairs & self._network._directed_partitions)
+        return bool(self.directed_pairs & self._network._directed_partitions.keys())
 
     def heal(self) -> None:
-        """Remove only this partition's pairs, leaving others intact."""
-        self._network._partitioned_pairs -= self.pairs
-        self._network._directed_partitions -= self.directed_pairs
+        """Remove only this partition's pairs, leaving others intact.
+
+        A pair that is also blocked by another, still active partition stays
+        blocked: every partition holds one reference on each of its pairs.
+        Healing twice is a no-op.
+        """
+        if self._healed:
+            return
+        self._healed = True
+        _release_pairs(self._network._partitioned_pairs, self.pairs)
+        _release_pairs(self._network._directed_partitions, self.directed_pairs)
         logger.info(
             "[%s] Selective partition healed: %d bidirectional + %d directed pairs",
             self._network.name,
@@ -101,11 +120,13 @@ class Network(Entity):
     # Routing table: (source_name, dest_name) -> NetworkLink
     _routes: dict[tuple[str, str], NetworkLink] = field(default_factory=dict, init=False)
 
-    # Partition state: set of frozenset pairs (bidirectional)
-    _partitioned_pairs: set[frozenset[str]] = field(default_factory=set, init=False)
+    # Partition state: frozenset pair (bidirectional) -> number of active
+    # partitions blocking it
+    _partitioned_pairs: dict[frozenset[str], int] = field(default_factory=dict, init=False)
 
-    # Directed partition state: set of (source, dest) tuples (asymmetric)
-    _directed_partitions: set[tuple[str, str]] = field(default_factory=set, init=False)
+    # Directed partition state: (source, dest) tuple (asymmetric) -> number of
+    # active partitions blocking it
+    _directed_partitions: dict[tuple[str, str], int] = field(default_factory=dict, init=False)
 
     # Track all known entities for partition validation
     _known_entities: dict[str, Entity] = field(default_factory=dict, init=False)
@@ -221,11 +242,15 @@ class Network(Entity):
                 self._known_entities[entity_b.name] = entity_b
                 if asymmetric:
                     directed_pairs.add((entity_a.name, entity_b.name))
-                    self._directed_partitions.add((entity_a.name, entity_b.name))
                 else:
-                    pair = frozenset([entity_a.name, entity_b.name])
-                    bidirectional_pairs.add(pair)
-                    self._partitioned_pairs.add(pair)
+                    bidirectional_pairs.add(frozenset([entity_a.name, entity_b.name]))
+
+        # One reference per pair per partition handle (the handle's pair sets
+        # are de-duplicated), released again by Partition.heal().
+        for directed in directed_pairs:
+            self._directed_partitions[directed] = self._directed_partitions.get(directed, 0) + 1
+        for pair in bidirectional_pairs:
+            self._partitioned_pairs[pair] = self._partitioned_pairs.get(pair, 0) + 1
 
         if asymmetric:
             logger.info(
